@@ -253,6 +253,16 @@ func runC05(o Opts) error {
 				prevOff = off
 			}
 		}
+		// round instants (as constants in code tend to be) seen from this zone: 1970-01-01, 2000-01-01, 2001-09-09 01:46:40,
+		// 2038-01-19 03:14:07 UTC
+		for _, u := range []int64{0, 946684800, 1000000000, 2147483647} {
+			lt := time.Unix(u, 0).In(loc)
+			for _, n := range names {
+				if hasTime(msgTypes[n]) && (zi == 0 || n == "GetStatusResponse" || n == "GetTimeResponse" || n == "GetEventResponse" || n == "Event") {
+					c05at(s, r, n, msgTypes[n], z, lt.Year(), int(lt.Month()), lt.Day(), lt.Hour(), lt.Minute(), lt.Second(), "msg/round-instants")
+				}
+			}
+		}
 		if zi == 0 {
 			// dispatchers: all 256 function codes x valid/invalid protocol id; all lengths 0..128
 			for code := 0; code < 256; code++ {
@@ -346,6 +356,11 @@ func c05replay(s *Sink, path string) error {
 // a valid encoding of the message with the bytes of every date field replaced by the BCD of the given day (date-times at
 // noon), decoded under the current zone
 func c05onDay(s *Sink, r *Rand, name string, t reflect.Type, zone string, y, m, d int) {
+	c05at(s, r, name, t, zone, y, m, d, 12, 0, 0, "msg/dates-on-offset-change-day")
+}
+
+// the same with the date-times at a given time of day (system time fields too)
+func c05at(s *Sink, r *Rand, name string, t reflect.Type, zone string, y, m, d, hh, mi, se int, class string) {
 	fs := layoutOfType(t)
 	sv := reflect.New(t).Elem()
 	for try := 0; try < 5; try++ {
@@ -372,10 +387,12 @@ func c05onDay(s *Sink, r *Rand, name string, t reflect.Type, zone string, y, m, 
 		case "types.SystemDate":
 			copy(b[off:], []byte{bcd(y % 100), bcd(m), bcd(d)})
 		case "types.DateTime":
-			copy(b[off:], []byte{bcd(y / 100), bcd(y % 100), bcd(m), bcd(d), 0x12, 0x00, 0x00})
+			copy(b[off:], []byte{bcd(y / 100), bcd(y % 100), bcd(m), bcd(d), bcd(hh), bcd(mi), bcd(se)})
+		case "types.SystemTime":
+			copy(b[off:], []byte{bcd(hh), bcd(mi), bcd(se)})
 		}
 	}
-	c05unmarshal(s, name, t, fs, b, zone, "msg/dates-on-offset-change-day")
+	c05unmarshal(s, name, t, fs, b, zone, class)
 }
 
 // one string per leaf field, by what the field means (dates by civil fields, IPs in 4-byte form, header fields skipped)
